@@ -108,7 +108,7 @@ func init() {
 		LevelNote:   "Trusted: go/ssa, executor, z3/cvc5, harness spec. Dialer.snapshotLatencyForPolicy and MustGetAlive are replaced by the harness's ghost tables (a node once measured stays measured); fastrand is an arbitrary in-range value; logging is a no-op. Bounded histories from construction (no inductive invariant is assumed). Group callbacks (edge reporting) belong to C16 and are not asserted here.",
 		Technique:   techniqueText,
 		Explanation: "Bounded symbolic execution of AliveDialerSet and DialerGroup selection.",
-		Bounds:      map[string]string{"quick": "min policy: 2 nodes x 3 events and 3 nodes x 2 events (first event on node 0 by symmetry), latencies 0..10 s, offsets -10 s..2 h (negative offsets and sums beyond one hour included), tolerance 0..1 s; random: 3 nodes x 3 events; group select: 1-2 nodes, policies random/min/fixed(0,1,-1), requested in {data-udp4, tcp6, dns-udp4}, strict and non-strict, any excluded node, alive flags of every consulted domain symbolic", "thorough": "min policy: 2 nodes x 5 events, 3 nodes x 4 events; group select: all six requested types"},
+		Bounds:      map[string]string{"quick": "min policy: 2 nodes x 3 events and 3 nodes x 2 events (first event on node 0 by symmetry), latencies 0..10 s, offsets -10 s..2 h (negative offsets and sums beyond one hour included), tolerance 0..2 h; random: 3 nodes x 3 events; group select: 1-2 nodes, policies random/min/fixed(0,1,-1), requested in {data-udp4, tcp6, dns-udp4}, strict and non-strict, any excluded node, alive flags of every consulted domain symbolic", "thorough": "min policy: 2 nodes x 5 events, 3 nodes x 4 events; group select: all six requested types"},
 		Outside:     []string{"min_avg10 / min_moving_avg differ from min only in snapshotLatencyForPolicy (stubbed)", "SetSelectionPolicy at run time", "concurrent notifications (mutex-protected)"},
 		Assumptions: []string{"a measured node keeps having a measurement", "fastrand arbitrary", "untried health domains are set alive (adversarial)"},
 		QuickBudget: 8 * time.Minute, ThoroughBudget: 20 * time.Minute,
